@@ -490,6 +490,28 @@ impl<'a> Exec<'a> {
                     }
                 }
             }
+            // C03: a version whose chunks all arrived (in one piece or covered and applied) is not
+            // partial or needed any more - it became visible at that step
+            if cfg.props.contains("C03") {
+                let st = self.nodes[n].run(async |nd| nd.sync_state().await);
+                for (a, m) in model.actors.iter() {
+                    if *a == own {
+                        continue;
+                    }
+                    for v in m.held.iter() {
+                        let in_need = st.need.get(a).map(|rs| rs.iter().any(|r| r.start().0 <= *v && *v <= r.end().0)).unwrap_or(false);
+                        let in_partial = st.partial_need.get(a).map(|p| p.contains_key(&CrsqlDbVersion(*v))).unwrap_or(false);
+                        let head = st.heads.get(a).map(|h| h.0).unwrap_or(0);
+                        if in_need || in_partial || head < *v {
+                            self.viol.push((
+                                "C03:fully-received-version-not-applied".into(),
+                                json!({"node": n, "actor": a.to_string(), "version": v, "at": tag, "listed_as": if in_partial { "partial" } else if in_need { "needed" } else { "above head" },
+                                       "partial_need": format!("{:?}", st.partial_need.get(a))}),
+                            ));
+                        }
+                    }
+                }
+            }
             // C03: a covered version must have an apply trigger pending (or be applied already)
             if cfg.props.contains("C03") {
                 let pending: Vec<(ActorId, CrsqlDbVersion)> = self.nodes[n].run(async |nd| nd.pending_apply());
